@@ -73,6 +73,8 @@ def _vs(x):
 
 def gen_direct(rng, n, w, cat_date, big=False):
     vals = [rng.choice(VALUES) for _ in range(n)]
+    if rng.random() < 0.15:
+        vals = [Fraction(0)] * n       # a non-empty all-zero series is still smoothed (NaN padding)
     series = []
     if cat_date and not big:
         for mask in itertools.product([0, 1], repeat=n):
@@ -89,6 +91,7 @@ def gen_direct(rng, n, w, cat_date, big=False):
         series.append(s)
     mats = []
     for nrows in (0, 1, 2, 3):
+        mats.append([["0"] * n for _ in range(rng.randint(1, 2))])     # all-zero 2-D block
         mats.append([["nan" if rng.random() < 0.2 else _vs(rng.choice(VALUES)) for _ in range(n)]
                      for _ in range(nrows)])
     func = rng.choice(["absent", None, "", "one_sided_moving_avg", "one_sided_moving_avg"])
